@@ -667,17 +667,19 @@ theorem catalogue_request_fields_bounded (rq : FieldRow) (hq : rq ∈ Gen.fieldR
   exact ⟨fun _ hk => req_action_nonempty hqs hqo ks hk, h1, h2, h3,
          fun k w h hw => req_action_within_bounds hqs hqo ks hv k w h hw⟩
 
-/-- region descriptions (region errors, split results): every catalogue field in region format returns the user's
-    bound for a region bound of this keyspace, and a bound it delivers non-empty always was (the memcomparable form
+/-- region descriptions (region errors, split results, bucket keys): every catalogue field in region format returns
+    the user's bound / bucket key for a region bound of this keyspace, and a bound it delivers non-empty always was (the memcomparable form
     of) a key of THIS keyspace — a foreign bound is clipped to "unbounded" or the region rejected -/
 theorem catalogue_region_fields (rp : FieldRow) (hp : rp ∈ Gen.fieldRows) (hps : rp.side = .resp)
     (hpf : rp.fmt = .region) (hpk : rp.known = false) (ks : Keyspace) (hv : ks.valid = true) :
     (rp.role = .start → ∀ k, rp.action ks (encodeRegionKey ks k) = .ok k) ∧
     (rp.role = .end_ → ∀ k, k ≠ [] → rp.action ks (encodeRegionKey ks k) = .ok k) ∧
+    (rp.role = .key → ∀ k, rp.action ks (encodeRegionKey ks k) = .ok k) ∧
     (∀ x k, rp.action ks x = .ok k → k ≠ [] → memDecode x = .ok (encodeKey ks k)) := by
   have hpo := catalogue_row_ok hp hpk
   exact ⟨fun hr k => resp_region_start hps hpf hpo hr ks hv k,
          fun hr k hk => resp_region_end hps hpf hpo hr ks k hk,
+         fun hr k => resp_region_key hps hpf hpo hr ks k,
          fun x k h hk => resp_region_sound hps hpf hpo ks h hk⟩
 
 /-- non-vacuity of the lifted theorems: the table contains unwaived request rows of each role, plain response rows
